@@ -1,12 +1,14 @@
 import IbcVerif.Driver.RateLimit
 import IbcVerif.Driver.Callbacks
 import IbcVerif.Driver.Ica
+import IbcVerif.Driver.Gmp
 
 def main (args : List String) : IO UInt32 := do
   match args with
   | ["ratelimit"] => IbcVerif.Driver.RateLimit.main; return 0
   | ["callbacks"] => IbcVerif.Driver.Callbacks.main; return 0
   | ["ica"] => IbcVerif.Driver.Ica.main; return 0
+  | ["gmp"] => IbcVerif.Driver.Gmp.main; return 0
   | _ =>
     IO.eprintln "usage: appsmodel <engine>   (engines: ratelimit, callbacks, ica, gmp, pfm)"
     return 2
